@@ -90,8 +90,10 @@ def run(ctx) -> None:
     if run_await:
         rn = [n for n in cfg.live_nodes() if cfg.own_ast(n) is not None and any(x is run_await[0] for x in iter_own(cfg.own_ast(n)))][0]
         X = rn.ast.targets[0].id if isinstance(rn.ast, ast.Assign) and isinstance(rn.ast.targets[0], ast.Name) else None
-        cts = controlling_tests(cfg, rn)
-        rep.check("C15.R2", any(lab == "t" and "isinstance" in ast.unparse(t.ast) and "CLIApplicationComponent" in ast.unparse(t.ast) for t, lab in cts), R, run_await[0], "run() is awaited iff the root component is a CLIApplicationComponent", "run() is not selected by isinstance(component, CLIApplicationComponent)")
+        from .discharge import controlling_conditions
+
+        cts = controlling_conditions(cfg, rn)
+        rep.check("C15.R2", any(truth and "isinstance" in ast.unparse(e) and "CLIApplicationComponent" in ast.unparse(e) for e, truth, _t in cts), R, run_await[0], "run() is awaited iff the root component is a CLIApplicationComponent", "run() is not selected by isinstance(component, CLIApplicationComponent)")
         rep.check("C15.R2", not a.covering_handlers(R, run_await[0]), R, run_await[0], "an exception from run() propagates (no handler)", "an exception raised by run() is caught: the crash does not propagate")
         if X is None:
             rep.unrecognised("C15.R2", R, rn.ast, "the result of run() is not bound to a variable")
@@ -172,14 +174,14 @@ def run(ctx) -> None:
     else:
         ex = exits[0]
         en = racfg.nodes_containing(ex)[0]
-        cts = controlling_tests(racfg, en)
+        from .discharge import controlling_conditions
+
         code_var = ex.args[0].id if ex.args and isinstance(ex.args[0], ast.Name) else None
         ok = False
-        for t, lab in cts:
-            e = t.ast
-            if lab == "t" and isinstance(e, ast.NamedExpr) and e.target.id == code_var and e.value is anyio_call:
+        for e, truth, _t in controlling_conditions(racfg, en):
+            if truth and isinstance(e, ast.NamedExpr) and e.target.id == code_var and e.value is anyio_call:
                 ok = True
-            if lab == "t" and isinstance(e, ast.Name) and e.id == code_var:
+            if truth and isinstance(e, ast.Name) and e.id == code_var:
                 ok = True
         rep.check("C15.R3", ok, RA, ex, "sys.exit(code) iff the runner's status is non-zero, with that status", "the process exit status is not `sys.exit(status) iff status`")
         rep.check("C15.R3", anyio_call.args and isinstance(anyio_call.args[0], ast.Name) and a.r.resolve_name(RA, anyio_call.args[0].id) is R, RA, anyio_call, "the status comes from the async runner", "sys.exit does not use the async runner's result")
